@@ -8,26 +8,26 @@ from plan import PLAN
 TECH = "bounded symbolic execution of the real Go code (own go/ssa interpreter zsx) with SMT-decided branches and assertions (z3, cvc5); counterexamples replayed natively"
 
 CLAIM = {
- "C01": ("Every batch shape inside the bound (documents x fields x terms x locations, multi-valued fields, empty and 2-byte terms, freq 0) is built by the real builder and queried through the real reader under the interpreter; frequencies, field lengths, positions, offsets, array positions and the chunk mode are SMT variables, so each path is decided for all their values; codec kernels (varint, freq/hasLocs, single-hit) at full 64-bit width.", "5 C01"),
- "C02": ("Stored fields, DocID, DocNumbers, Count, Fields and early-stopping visitors for every stored-value shape inside the bound, type bytes and array positions symbolic.", "5 C02"),
- "C03": ("Doc values for every visiting order (with repeats, length <= 4) with one reused visit state, in memory and re-opened, for every doc-value chunk size 1..1024 (symbolic).", "5 C03"),
- "C04": ("Persist+Open state equality and answer equality, WriteTo == Persist bytes, footer fields and CRC (as an uninterpreted fold over all preceding bytes) for every batch shape in the bound and every chunk mode; footer writer at full width.", "5 C04"),
- "C05": ("Merge of two inputs (built / re-opened) with every deletion set: renumbering maps, size, Count, Fields, stored values, DocID, DocNumbers against an independent reference; both stored-data paths (byte copy, re-encode).", "5 C05"),
- "C06": ("Postings (freq, norm, locations with field names) and doc values of the merged segment against the reference semantics of the survivors, all three merge branches (byte copy, re-encode, single-hit).", "5 C06"),
- "C07": ("Every Next/Advance sequence (length <= L) over every postings set and exclusion set on <= N documents, symbolic chunk mode, all detail-flag combinations, general and single-hit encodings, preallocated object reuse.", "5 C07"),
- "C08": ("Dictionary enumeration for every term set over a 5-term alphabet x provenance (built, opened, merged once/twice, merged behind a segment lacking the field) x automata x key ranges, with counts.", "5 C08"),
- "C09": ("Files written by Persist and Merge are decoded by an independent reader written from the documented layout (frozen in /verif) and must decode to the content that went in; chunk-size rule and footer against frozen references at full width.", "5 C09"),
- "C10": ("B after A on the pooled builder (pool model hands the same builder back) equals B's reference semantics, for asymmetric shape pairs (doc values, extra fields, synonyms, failing build of A).", "5 C10"),
+ "C01": ("Every batch shape inside the bound (documents x fields x terms x locations, multi-valued and composite fields whose locations name other fields, locations without the term-vector option, empty and 2-byte terms, freq 0) is built by the real builder and queried through the real reader under the interpreter; frequencies, field lengths, positions, offsets, array positions and the chunk mode are SMT variables, so each path is decided for all their values; codec kernels (varint, freq/hasLocs, single-hit) at full 64-bit width; 600-1100-document builds for the cardinality-dependent chunk sizes; the same batches under the vectors build tag; a segment checked again after later builds.", "5 C01"),
+ "C02": ("Stored fields, DocID, DocNumbers, Count, Fields and early-stopping visitors for every stored-value shape inside the bound (type bytes and array positions symbolic, values of 0 bytes up to 70 000 bytes), on built, re-opened and merged segments (three inputs with their own field lists), and on segments read again after later builds.", "5 C02"),
+ "C03": ("Doc values for every visiting order (with repeats, length <= 4) with one reused visit state, in memory and re-opened, for every doc-value chunk size 1..1024 (symbolic); geo-shape extra terms, the doc-values option differing between occurrences of a field, the visit state carried to a second segment with symbolic fields; the opened-file offset reader at full width.", "5 C03"),
+ "C04": ("Persist+Open state equality and answer equality, WriteTo == Persist bytes, footer fields and CRC (as an uninterpreted fold over all preceding bytes) for every batch shape in the bound and every chunk mode; footer writer and doc-value offset reader at full width; composite fields, a field that is both a text field and a thesaurus, doc-value data above 128 bytes; also under the vectors build tag.", "5 C04"),
+ "C05": ("Merge of two and three inputs (built / re-opened, each with its own field list) with every deletion set: renumbering maps, size, Count, Fields, stored values, DocID, DocNumbers against an independent reference; both stored-data paths (byte copy, re-encode); 70 000-byte values; what holds when nothing survives.", "5 C05"),
+ "C06": ("Postings (freq, norm, locations with field names, composite postings naming two fields) and doc values (chunks of 1-2 documents, geo-shape terms) of the merged segment against the reference semantics of the survivors, all three merge branches (byte copy, re-encode, single-hit); 1100-document merges across the 1024 boundaries; the re-encode step with a symbolic field id.", "5 C06"),
+ "C07": ("Every Next/Advance sequence (length <= L) over every postings set and exclusion set on <= N documents, symbolic chunk mode, all detail-flag combinations, general and single-hit encodings, object reuse on built and merged segments, ReplaceActual, the shared empty list as preallocation; Advance across chunk boundaries at 600-1100 documents.", "5 C07"),
+ "C08": ("Dictionary enumeration for every term set over a 5-term alphabet x provenance (built, opened, merged once/twice, merged behind a segment lacking the field) x automata x key ranges, with counts, Contains and Cardinality.", "5 C08"),
+ "C09": ("Files written by Persist and Merge are decoded by an independent reader written from the documented layout (frozen in /verif; postings, locations, stored data, doc-value blocks) and must decode to the content that went in; chunk-size rule and footer against frozen references at full width; four files written by the pinned release are read by the current code.", "5 C09"),
+ "C10": ("B after A on the pooled builder (pool model hands the same builder back) equals B's reference semantics, for asymmetric shape pairs (doc values, extra fields, geo shapes, synonyms, failing build of A, independently chosen sizes, synonym batches in a row and followed by plain ones, vector and plain batches in either order); a build writes no package-level state; earlier segments are unchanged by later builds.", "5 C10"),
  "C11": ("Per-call ownership/effect obligations (reduction R1): after any two reader operations the scratch pool never holds one object twice; reader operations write only to owned, guarded or atomic state; answers unchanged on warm caches.", "5 C11"),
- "C12": ("Thesaurus lookups for every definition shape in the bound (2 thesauri, empty and non-empty left-hand terms, shared synonyms) x exclusion sets x re-open x object reuse.", "5 C12"),
+ "C12": ("Thesaurus lookups for every definition shape in the bound (2 thesauri, empty and non-empty left-hand terms, shared synonyms) x exclusion sets x re-open x object reuse; term listings through key ranges and automata; a field name that is also an ordinary text field; synonym batches built in a row; also under the vectors build tag.", "5 C12"),
  "C13": ("Merged thesauri against the reference pairs of the survivors for every definition shape and deletion set in the bound, second-generation merge in the thorough tier.", "5 C13"),
- "C17": ("A write fault at every Write/Sync/Close call of Persist and Merge (buffer 16 and 64 bytes) and at every call of a WriteTo target, with short-write classes: error and no file and closed handle, or complete re-openable file.", "5 C17"),
- "C18": ("The close channel turns closed at every poll of the merge (and before the call): ErrClosed and no file, or a complete correct file.", "5 C18"),
- "C20": ("Every AddRef/DecRef/Close/read sequence up to the bound on an opened segment in the virtual file system: mapping and descriptor live while referenced, released exactly once at the last drop; failing Open releases what it acquired.", "5 C20"),
- "C14": ("Vector search against an exact pure-Go stand-in for go-faiss: returned (doc, score) pairs are true scores of non-excluded, eligible documents, at most k, exactly the k best; statistics; persist+open.", "5 C14"),
- "C15": ("Merged vector sections hold exactly the survivors' vectors under the new numbering (stand-in engine); fields without survivors carry no index.", "5 C15"),
- "C16": ("Event sequences open/search/close/expiry/segment-close on the vector cache (stand-in engine, expiry as explicit event): answers equal those of a fresh segment, every index released exactly once.", "5 C16"),
- "C19": ("Each engine call of a build/merge made to fail (stand-in engine): an error is returned, no file is left, no index leaks.", "5 C19"),
+ "C17": ("A write fault at every Write/Sync/Close call of Persist and Merge (buffers 1, 16 and 64 bytes; three kinds of inputs) and at every call of a WriteTo target (four kinds of segment, short-write classes including silent ones): error and no file and closed handle, or complete re-openable output; inputs and scratch pool intact afterwards.", "5 C17"),
+ "C18": ("The close channel turns closed at every poll of the merge (and before the call), text, synonym and vector merges: ErrClosed and no file (and no engine index left), or a complete correct file; inputs and scratch pool intact afterwards.", "5 C18"),
+ "C20": ("Every AddRef/DecRef/Close/read sequence up to the bound on an opened plain or synonym segment in the virtual file system: mapping and descriptor live while referenced, released exactly once at the last drop; failing Open (open, mmap, load) and failing unmap release what was acquired; counter, mapping and descriptor only touched under the mutex.", "5 C20"),
+ "C14": ("Vector search against an exact pure-Go stand-in for go-faiss: returned (doc, score) pairs are true scores of non-excluded, eligible documents, at most k, exactly the k best; statistics; persist+open; 1100 vectors (clustered index class); two fields with different metrics; no vector index on a plain segment built after a vector batch.", "5 C14"),
+ "C15": ("Merged vector sections hold exactly the survivors' vectors under the new numbering (stand-in engine), sparse fields included; fields without survivors carry no index.", "5 C15"),
+ "C16": ("Event sequences open/search/close/expiry/segment-close on the vector cache (stand-in engine, expiry as explicit event), one and two vector fields: answers equal those of a fresh segment, every index released exactly once, entries cached iff held after a quiet period; cache map and entry state only touched under the cache's lock.", "5 C16"),
+ "C19": ("Each engine call of a build/merge made to fail, for every n of the fault-free run (stand-in engine, one or two vector fields, clustered path): an error is returned, no file is left, no index leaks or is closed twice.", "5 C19"),
 }
 
 NOTE = "Bounded claim: holds for every value of the symbolic numbers on every explored path inside the stated shape bounds (see evidence bounds / outside_the_claim). Trusted: the zsx interpreter and its models of sync, files, mmap, crc32 (uninterpreted), the natively executed libraries roaring, vellum, snappy, the reference semantics in harness/spec*.go, z3/cvc5. Timeouts/unknowns are reported as incomplete, never as success."
